@@ -113,3 +113,17 @@ def _gen_meta_grid(gen, rng):
 
 generator('mapproxy.grid:TileGrid', _gen_tile_grid)
 generator('mapproxy.grid:MetaGrid', _gen_meta_grid)
+
+
+def _tile_service_grid(j, conv):
+    from mapproxy.service.tile import TileServiceGrid
+    sg = TileServiceGrid.__new__(TileServiceGrid)
+    sg.grid = _tile_grid(j['grid'], conv)
+    sg.profile = j.get('profile') or 'local'
+    sg.srs_name = j.get('srs_name') or 'EPSG:3857'
+    sg._skip_first_level = j['_skip_first_level']
+    sg._skip_odd_level = j['_skip_odd_level']
+    return sg
+
+
+builder('mapproxy.service.tile:TileServiceGrid', _tile_service_grid)
